@@ -8,6 +8,10 @@ export PYTHONPATH="${TFVERIF_REPO:-/repo}:$HERE:$HERE/.deps${PYTHONPATH:+:$PYTHO
 if ! "$PY" -c "import hypothesis" 2>/dev/null; then
   "$PY" -m pip install -q --no-index --find-links /opt/veriftools/wheels --target "$HERE/.deps" hypothesis >&2 || { echo "HARNESS-ERROR: cannot install hypothesis offline" >&2; exit 2; }
 fi
+# atheris (coverage-guided fuzzing, thorough tiers of C05 and C09): optional, installed offline next to the repository's packages
+if [ "$1" = "--setup" ] || [ "$2" = "thorough" ]; then
+  "$PY" -c "import atheris" 2>/dev/null || "$PY" -m pip install -q --no-index --find-links /opt/veriftools/wheels --target "$HERE/.deps" atheris >&2 || echo "note: atheris not installable; fuzz shards will be skipped" >&2
+fi
 if [ "$1" = "--setup" ]; then
   "$PY" -c "import hypothesis, tinyflux; print('setup ok: hypothesis', hypothesis.__version__, 'tinyflux at', tinyflux.__file__)" || exit 2
   exit 0
